@@ -51,6 +51,7 @@ fn drive(args: &[String]) {
     "c06" | "c07" | "fix" => fix::drive(vectors, opt(args, "--vectors2"), corpus, seed, out, thorough, &prop),
     "c10" => c10::drive(vectors, corpus, seed, out, thorough),
     "c14" => c14::drive(vectors.expect("--vectors"), out, thorough),
+    "c15" => c15::drive(vectors.expect("--vectors"), out, thorough, seed),
     "rules" => rules::drive(opt(args, "--universe").expect("--universe"), vectors.expect("--vectors"), out),
     "c20" => c20::drive(vectors.expect("--vectors"), out),
     _ => {
